@@ -52,7 +52,7 @@ def polyline_pairs(draw, maxseg=4):
         B["P"] = [[x + 40, y] for x, y in B["P"]]
     num = draw(st.sampled_from(["float", "npfloat"]))
     A["num"] = B["num"] = num
-    return {"A": A, "B": B}
+    return {"A": A, "B": B, "elevate": draw(st.sampled_from([0, 0, 0, 1]))}
 
 
 def boxes_overlap(PA, PB):
@@ -102,6 +102,15 @@ def check_polylines(case, out):
     A, a = build_polyline(case["A"])
     B, b = build_polyline(case["B"])
     segA, segB = segments_of(a), segments_of(b)
+    if case.get("elevate"):
+        # reducible representations: the same polylines degree-elevated by the reference model
+        t = case["elevate"]
+        out.cls("elevated-operands")
+        ea = oracle.refine_state(a, oracle.elevated_vector(a.U, 1, t), 1 + t)
+        eb = oracle.refine_state(b, oracle.elevated_vector(b.U, 1, t), 1 + t)
+        A = lib.Curve([float(u) for u in ea.U], np.array([[float(x) for x in pt] for pt in ea.P]))
+        B = lib.Curve([float(u) for u in eb.U], np.array([[float(x) for x in pt] for pt in eb.P]))
+        a, b = lib.state_of(A), lib.state_of(B)
     exact = []
     degenerate = False
     mind2 = None
